@@ -383,6 +383,13 @@ def run(prog, tier):
                     res.undecided('definedness', key, f.loc(n['id']), detail, function=f.sig, expr=key)
     res.minimum('write calls in the save call graph', nw, 25)
 
+    import p_c13
+    from result import Result as _R
+    tmp = _R('x', tier, '')
+    p_c13.stale_reference_rule(prog, tmp)
+    for o in tmp.obs:
+        if 'temp-ptr' in o['expr']:
+            res.obs.append(dict(o, rule='definedness'))
     # ---- member-init -----------------------------------------------------------------------------
     ni = member_init_rule(prog, res)
     res.minimum('constructor x scalar-member obligations', ni, 40)
